@@ -21,7 +21,8 @@ Record Delivers (q : tnear) (u : list string) (T : table) : Prop := {
   dv_incl : incl u (tkeys q);
   dv_cols : incl u (cols T);
   dv_sel : forall K, K <> [] -> NoDup K -> incl K (tkeys q) ->
-           exists R, qsem fl e q (Some K) = Some R /\ sel [] R = sel [] T /\ (incl K u -> R = sel K T);
+           exists R, qsem fl e q (Some K) = Some R /\ sel [] R = sel [] T /\ (incl K u -> R = sel K T) /\
+                     (forall C, NoDup C -> incl C K -> incl C u -> sel C R = sel C T);
   dv_nil : exists R, qsem fl e q (Some []) = Some R /\ sel [] R = sel [] T;
   dv_table : forall n ts, q = TTable n ts -> exists st, dict_get e n = Some st /\ sel [] st = sel [] T
 }.
@@ -31,8 +32,9 @@ Proof.
   intros D I. destruct D as [A B C0 C D0 E0]. constructor; try assumption.
   - intros x Hx. apply B, I, Hx.
   - intros x Hx. apply C0, I, Hx.
-  - intros K NE N IK. destruct (C K NE N IK) as [R [E1 [E2 E3]]]. exists R. split; [exact E1|]. split; [exact E2|].
-    intros IKu. apply E3. intros x Hx. apply I, IKu, Hx.
+  - intros K NE N IK. destruct (C K NE N IK) as [R [E1 [E2 [E3 E4]]]]. exists R. split; [exact E1|]. split; [exact E2|]. split.
+    + intros IKu. apply E3. intros x Hx. apply I, IKu, Hx.
+    + intros C1 N1 I1 I2. apply E4; [exact N1|exact I1|]. intros x Hx. apply I, I2, Hx.
 Qed.
 
 (* what the parent sees through a container asking for the columns C *)
@@ -47,13 +49,13 @@ Proof.
     destruct C as [|c0 C'].
     + apply RA_of_sel_eq. symmetry. exact E2.
     + assert (incl (c0 :: C') (tkeys (TTable n ts))) as IK by (intros x Hx; apply (dv_incl _ _ _ D), I, Hx).
-      destruct (dv_sel _ _ _ D (c0 :: C') ltac:(discriminate) N IK) as [R [Q1 [Q2 Q3]]].
+      destruct (dv_sel _ _ _ D (c0 :: C') ltac:(discriminate) N IK) as [R [Q1 [Q2 [Q3 _]]]].
       simpl in Q1. rewrite E1 in Q1. injection Q1 as Q1. apply RA_of_sel_eq. rewrite <- (Q3 I), <- Q1. reflexivity.
   - cbn [tc_cols]. destruct C as [|c0 C'].
     + destruct (dv_nil _ _ _ D) as [R [E1 E2]]. exists R. split; [exact E1|]. split; [|intros X; congruence].
       apply RA_of_sel_eq. symmetry. exact E2.
     + assert (incl (c0 :: C') (tkeys q)) as IK by (intros x Hx; apply (dv_incl _ _ _ D), I, Hx).
-      destruct (dv_sel _ _ _ D (c0 :: C') ltac:(discriminate) N IK) as [R [Q1 [Q2 Q3]]].
+      destruct (dv_sel _ _ _ D (c0 :: C') ltac:(discriminate) N IK) as [R [Q1 [Q2 [Q3 _]]]].
       exists R. split; [exact Q1|]. rewrite (Q3 I). split; [apply RA_sel|reflexivity].
 Qed.
 
@@ -203,8 +205,9 @@ Proof.
   - exact IuT.
   - intros C NC NDC IC. rewrite EK in IC. rewrite (restrict_qsem q K q' C E NC IC).
     assert (incl C (tkeys q)) as ICq by (intros x Hx; apply IK, IC, Hx).
-    destruct (dv_sel _ _ _ D C NC NDC ICq) as [R [Q1 [Q2 Q3]]]. exists R. split; [exact Q1|]. split; [congruence|].
-    intros ICu. rewrite (EC C ICu). apply Q3. intros x Hx. apply Iuu, ICu, Hx.
+    destruct (dv_sel _ _ _ D C NC NDC ICq) as [R [Q1 [Q2 [Q3 Q4]]]]. exists R. split; [exact Q1|]. split; [congruence|]. split.
+    + intros ICu. rewrite (EC C ICu). apply Q3. intros x Hx. apply Iuu, ICu, Hx.
+    + intros C1 N1 I1 I2. rewrite (EC C1 I2). apply Q4; [exact N1|exact I1|]. intros x Hx. apply Iuu, I2, Hx.
   - rewrite (restrict_qsem_nil q K q' E NE NQ). destruct q as [n ts|nm l s ci sfx mg dp|nm l s1 c1 j s2 c2 on].
     + destruct (dv_nil _ _ _ D) as [R [Q1 Q2]]. exists R. split; [exact Q1|congruence].
     + destruct (dv_sel _ _ _ D K NE N IK) as [R [Q1 [Q2 _]]]. exists R. split; [exact Q1|congruence].
@@ -247,21 +250,31 @@ Lemma fresh_unary sub us S nm tms sfx mg dp u T :
   (forall K A, K <> [] -> incl K (map fst tms) ->
      exists R X, sql_select fl true (Some tms) (Some K) sfx A = Some R /\ sql_select fl true None None sfx A = Some X /\ sel [] R = sel [] X) ->
   (exists X, sql_select fl true None None sfx (sel us S) = Some X /\ sel [] X = sel [] T) ->
+  (forall K C A R, C <> [] -> incl C K -> incl K (map fst tms) ->
+     sql_select fl true (Some tms) (Some K) sfx A = Some R -> sql_select fl true (Some tms) (Some C) sfx A = Some (sel C R)) ->
   Delivers (TUnary nm (Some tms) sub (mk_tci (Some us) false None) sfx mg dp) u T.
 Proof.
-  intros D Nus NT ND Iu IuT Hex Hloc Hsfx Hcnt Hstar.
+  intros D Nus NT ND Iu IuT Hex Hloc Hsfx Hcnt Hstar Hsub.
   destruct (deliver_csem sub us S us false None D Nus (incl_refl us)) as [S' [ES [RS _]]].
   assert (RA us (sel us S) S') as RS1 by (eapply RA_trans; [apply RA_sym, RA_sel|exact RS]).
+  assert (forall K, K <> [] -> NoDup K -> incl K u -> sql_select fl true (Some tms) (Some K) sfx S' = Some (sel K T)) as Exact.
+  { intros K NE NK IKu.
+    assert (sql_select fl true (Some tms) (Some K) sfx (sel us S) = sql_select fl true (Some tms) (Some K) sfx S') as EL.
+    { apply (sql_select_local fl us); [exact RS1|exact NE| |exact Hsfx]. intros k Ik. apply Hloc, IKu, Ik. }
+    rewrite <- EL. apply Hex; assumption. }
   assert (forall K, K <> [] -> NoDup K -> incl K (map fst tms) ->
-          exists R, sql_select fl true (Some tms) (Some K) sfx S' = Some R /\ sel [] R = sel [] T /\ (incl K u -> R = sel K T)) as Main.
-  { intros K NE NK IK. destruct (Hcnt K S' NE IK) as [R [X [E1 [E2 E3]]]]. exists R. split; [exact E1|]. split.
-    - destruct Hstar as [X0 [F1 F2]].
+          exists R, sql_select fl true (Some tms) (Some K) sfx S' = Some R /\ sel [] R = sel [] T /\ (incl K u -> R = sel K T) /\
+                    (forall C, NoDup C -> incl C K -> incl C u -> sel C R = sel C T)) as Main.
+  { intros K NE NK IK. destruct (Hcnt K S' NE IK) as [R [X [E1 [E2 E3]]]]. exists R. split; [exact E1|].
+    assert (sel [] R = sel [] T) as ER0.
+    { destruct Hstar as [X0 [F1 F2]].
       pose proof (sql_select_star_rows fl true None None sfx (sel us S) S' us RS1 eq_refl Hsfx) as SR.
-      rewrite F1, E2 in SR. congruence.
-    - intros IKu.
-      assert (sql_select fl true (Some tms) (Some K) sfx (sel us S) = sql_select fl true (Some tms) (Some K) sfx S') as EL.
-      { apply (sql_select_local fl us); [exact RS1|exact NE| |exact Hsfx]. intros k Ik. apply Hloc, IKu, Ik. }
-      rewrite (Hex K NE NK IKu) in EL. congruence. }
+      rewrite F1, E2 in SR. congruence. }
+    split; [exact ER0|]. split.
+    - intros IKu. rewrite (Exact K NE NK IKu) in E1. congruence.
+    - intros C NC IC ICu. destruct C as [|c0 C']; [rewrite ER0; reflexivity|].
+      pose proof (Hsub K (c0 :: C') S' R ltac:(discriminate) IC IK E1) as E4.
+      rewrite (Exact (c0 :: C') ltac:(discriminate) NC ICu) in E4. congruence. }
   constructor.
   - exact ND.
   - exact Iu.
